@@ -107,49 +107,94 @@ theorem setArcs_never_fail (arcs : List Nat) (h32 : Arcs32 arcs) : setArcs arcs 
 
 /-! ### (4) OBJECT_IDENTIFIER_get_single_arc -/
 
-/-- **OBJECT_IDENTIFIER_get_single_arc** on any complete sub-identifier (minimal or not, any length)
-    consumes it and returns its value modulo 2^32: larger values wrap silently (finding F6). -/
-theorem getSingleArc_wraps (bs rest : Bytes) (h : IsSubid bs) :
-    getSingleArc (bs ++ rest) = .ok (subidVal 0 bs % 4294967296) bs.length :=
+/-- **OBJECT_IDENTIFIER_get_single_arc** on any complete sub-identifier (minimal or not, any length,
+    whatever follows it) consumes it and returns its value iff that value fits `asn_oid_arc_t`;
+    otherwise it reports ERANGE (no wrap-around: F6 repaired). -/
+theorem getSingleArc_iff_fits (bs rest : Bytes) (h : IsSubid bs) :
+    getSingleArc (bs ++ rest) =
+      if subidVal 0 bs < 2 ^ 32 then .ok (subidVal 0 bs) bs.length else .erange :=
   getSingleArc_subid bs rest h
 
 /-- **OBJECT_IDENTIFIER_get_single_arc** returns the exact value of every sub-identifier below 2^32. -/
 theorem getSingleArc_spec (bs rest : Bytes) (h : IsSubid bs) (hv : subidVal 0 bs < 2 ^ 32) :
     getSingleArc (bs ++ rest) = .ok (subidVal 0 bs) bs.length := by
-  have e : (2 : Nat) ^ 32 = 4294967296 := by decide
-  rw [getSingleArc_wraps bs rest h, Nat.mod_eq_of_lt (by omega)]
+  rw [getSingleArc_iff_fits bs rest h, if_pos hv]
+
+/-- **OBJECT_IDENTIFIER_get_single_arc** reports ERANGE for every sub-identifier of 2^32 or more. -/
+theorem getSingleArc_overflow (bs rest : Bytes) (h : IsSubid bs) (hv : 2 ^ 32 ≤ subidVal 0 bs) :
+    getSingleArc (bs ++ rest) = .erange := by
+  rw [getSingleArc_iff_fits bs rest h, if_neg (by omega)]
 
 /-- **OBJECT_IDENTIFIER_get_single_arc** accepts non-minimal sub-identifiers (any number of leading
     0x80 octets, forbidden by X.690 §8.19.2) and returns the same arc. -/
 theorem getSingleArc_nonminimal (k n : Nat) (rest : Bytes) (h : n < 2 ^ 32) :
     getSingleArc (List.replicate k 128 ++ base128 n ++ rest) = .ok n (k + (base128 n).length) := by
-  have e : (2 : Nat) ^ 32 = 4294967296 := by decide
   have hs : IsSubid (List.replicate k 128 ++ base128 n) :=
     isSubid_hi_append _ _ (allHi_replicate k) (base128_isSubid n)
-  rw [getSingleArc_wraps _ rest hs, subidVal_append, subidVal_replicate, subidVal_base128,
-    Nat.mod_eq_of_lt (by omega)]
+  have hval : subidVal 0 (List.replicate k 128 ++ base128 n) = n := by
+    rw [subidVal_append, subidVal_replicate, subidVal_base128]
+  rw [getSingleArc_iff_fits _ rest hs, hval, if_pos h]
   simp
 
-/-- **OBJECT_IDENTIFIER_get_single_arc** never reports ERANGE: its overflow test is dead code. -/
-theorem getSingleArc_never_erange (bs : Bytes) : getSingleArc bs ≠ .erange := by
-  unfold getSingleArc
-  split
-  · simp
-  · exact getSingleLoop_ne_erange 0 0 bs
+/-- **OBJECT_IDENTIFIER_get_single_arc is sound on arbitrary octets**: whenever it returns an arc, the
+    `rd` octets it consumed are one complete sub-identifier, the arc is the value they denote and it
+    fits 32 bits (nothing is returned modulo 2^32). -/
+theorem getSingleArc_ok_sound (bs : Bytes) (hwf : Bytes.wf bs) (v rd : Nat)
+    (h : getSingleArc bs = .ok v rd) :
+    ∃ sub rest, bs = sub ++ rest ∧ IsSubid sub ∧ rd = sub.length ∧ v = subidVal 0 sub ∧ v < 2 ^ 32 := by
+  rcases subid_prefix_or_allHi bs hwf with ⟨sub, rest, e, hs⟩ | hall
+  · refine ⟨sub, rest, e, hs, ?_⟩
+    rw [e, getSingleArc_iff_fits sub rest hs] at h
+    split at h
+    · rename_i hv
+      injection h with h1 h2
+      exact ⟨h2.symm, h1.symm, by rw [← h1]; exact hv⟩
+    · cases h
+  · exfalso
+    unfold getSingleArc at h
+    split at h
+    · cases h
+    · rcases getSingleLoop_allHi 0 0 bs hall with e | e <;> rw [e] at h <;> cases h
 
-/-- F6 witness: the five-octet sub-identifier of 2^32 is read back as arc 0. -/
-theorem getSingleArc_overflow_wraps_cex :
+/-- **OBJECT_IDENTIFIER_get_single_arc reports ERANGE only for an overflow**: on arbitrary octets the
+    answer ERANGE means that the octets read so far already denote a value of 2^32 or more. -/
+theorem getSingleArc_erange_sound (bs : Bytes) (hwf : Bytes.wf bs) (h : getSingleArc bs = .erange) :
+    (∃ sub rest, bs = sub ++ rest ∧ IsSubid sub ∧ 2 ^ 32 ≤ subidVal 0 sub) ∨
+    ((∀ b ∈ bs, 128 ≤ b ∧ b < 256) ∧ 2 ^ 32 ≤ subidVal 0 bs) := by
+  rcases subid_prefix_or_allHi bs hwf with ⟨sub, rest, e, hs⟩ | hall
+  · left
+    refine ⟨sub, rest, e, hs, ?_⟩
+    rw [e, getSingleArc_iff_fits sub rest hs] at h
+    split at h
+    · cases h
+    · omega
+  · right
+    refine ⟨hall, ?_⟩
+    by_cases hv : subidVal 0 bs < 4294967296
+    · exfalso
+      unfold getSingleArc at h
+      split at h
+      · cases h
+      · rw [getSingleLoop_allHi_small 0 0 bs hall hv] at h; cases h
+    · omega
+
+/-- F6 witness, repaired: the five-octet sub-identifier of 2^32 (formerly read back as arc 0) is
+    answered with ERANGE; 2^32 - 1 is still read exactly. -/
+theorem getSingleArc_overflow_witness :
     IsSubid [0x90, 0x80, 0x80, 0x80, 0x00] ∧ subidVal 0 [0x90, 0x80, 0x80, 0x80, 0x00] = 2 ^ 32 ∧
-    getSingleArc [0x90, 0x80, 0x80, 0x80, 0x00] = .ok 0 5 := by
-  refine ⟨?_, by decide, by decide⟩
+    getSingleArc [0x90, 0x80, 0x80, 0x80, 0x00] = .erange ∧
+    getSingleArc [0x8f, 0xff, 0xff, 0xff, 0x7f] = .ok 4294967295 5 := by
+  refine ⟨?_, by decide, by decide, by decide⟩
   simp [IsSubid]
 
-/-- **OBJECT_IDENTIFIER_get_single_arc** reports EINVAL when the buffer ends inside a sub-identifier. -/
+/-- **OBJECT_IDENTIFIER_get_single_arc** when the buffer ends inside a sub-identifier: EINVAL — unless
+    the octets read so far already overflow 32 bits, which is reported (as ERANGE) first. -/
 theorem getSingleArc_truncated (bs : Bytes) (hne : bs ≠ []) (h : ∀ b ∈ bs, 128 ≤ b ∧ b < 256) :
-    getSingleArc bs = .einval := by
+    (subidVal 0 bs < 2 ^ 32 → getSingleArc bs = .einval) ∧
+    (getSingleArc bs = .einval ∨ getSingleArc bs = .erange) := by
   unfold getSingleArc
   rw [if_neg hne]
-  exact getSingleLoop_allHi 0 0 bs h
+  exact ⟨fun hv => getSingleLoop_allHi_small 0 0 bs h hv, getSingleLoop_allHi 0 0 bs h⟩
 
 /-! ### (5) get_arcs ∘ set_arcs -/
 
@@ -191,6 +236,38 @@ theorem roidGetArcs_roidSetArcs (arcs : List Nat) (h32 : Arcs32 arcs) :
     roidGetArcs (roidOctets arcs) = .ok arcs := by
   unfold roidGetArcs roidOctets
   exact getArcsLoop_flatMap _ arcs h32 (by have := length_le_flatMap_base128 arcs; omega)
+
+/-- **RELATIVE_OID_get_arcs on any series of complete sub-identifiers** (minimal or not): the values
+    they denote if every one fits `asn_oid_arc_t`, ERANGE otherwise. -/
+theorem roidGetArcs_iff_fit (subs : List Bytes) (h : ∀ s ∈ subs, IsSubid s) :
+    roidGetArcs subs.flatten =
+      if allFit subs = true then .ok (subs.map (subidVal 0)) else .erange := by
+  unfold roidGetArcs
+  exact getArcsLoop_subids _ subs h (by have := length_le_flatten_subids subs h; omega)
+
+/-- **OBJECT_IDENTIFIER_get_arcs on any series of complete sub-identifiers**: the first one split
+    into the arc pair (X.690 §8.19.4), then the values of the others, if every sub-identifier fits
+    `asn_oid_arc_t`; ERANGE otherwise. -/
+theorem getArcs_iff_fit (s0 : Bytes) (subs : List Bytes) (h0 : IsSubid s0) (h : ∀ s ∈ subs, IsSubid s) :
+    getArcs (s0 ++ subs.flatten) =
+      if allFit (s0 :: subs) = true then
+        .ok ((splitFirst (subidVal 0 s0)).1 :: (splitFirst (subidVal 0 s0)).2 :: subs.map (subidVal 0))
+      else .erange := by
+  unfold getArcs
+  rw [getSingleArc_iff_fits s0 _ h0, allFit_cons]
+  by_cases hv : subidVal 0 s0 < 2 ^ 32
+  · rw [if_pos hv]
+    simp only [List.drop_left]
+    rw [getArcsLoop_subids _ subs h (by
+      have := length_le_flatten_subids subs h
+      simp only [List.length_append]; omega)]
+    have hv' : subidVal 0 s0 < 4294967296 := hv
+    by_cases ha : allFit subs = true
+    · simp [hv', ha]
+    · simp [ha]
+  · rw [if_neg hv]
+    have hv' : ¬ subidVal 0 s0 < 4294967296 := hv
+    simp [hv']
 
 /-! ### (6) OBJECT_IDENTIFIER_parse_arcs -/
 
@@ -272,33 +349,40 @@ theorem time2GT_canonical (t off : Int) (h0 : t0000 ≤ t) (h1 : t < t10000) :
   time2GT_canon t off h0 h1
 
 /-- **asn_GT2time on canonical text**: every "YYYYMMDDHHMMSSZ" of a valid date-time converts to the instant
-    it denotes (and the `struct tm` handed back is that instant's), in every local zone — except when the
-    instant is -1, which the code reports as an error (finding F60, `GT2time_minus_one_cex`). -/
-theorem GT2time_canonical_partial (lo : Int) (g : Bool) (Y M D h m s : Nat) (hv : ValidDateTime Y M D h m s)
-    (hne : epochSeconds Y M D h m s ≠ -1) :
+    it denotes (and the `struct tm` handed back is that instant's), in every local zone — the instant -1
+    (1969-12-31T23:59:59Z) included (F60 repaired). -/
+theorem GT2time_canonical (lo : Int) (g : Bool) (Y M D h m s : Nat) (hv : ValidDateTime Y M D h m s) :
     GT2time lo (gtCanon Y M D h m s) g = .ok (epochSeconds Y M D h m s) 0 0
       (if g then gmtime (epochSeconds Y M D h m s) else localtime (epochSeconds Y M D h m s) lo) := by
   unfold GT2time
-  rw [GT2timeFrac_canon lo g Y M D h m s hv, if_neg hne]
+  rw [GT2timeFrac_canon lo g Y M D h m s hv]
 
-/-- **round trip**: for every `time_t` t in the years 0000..9999 other than -1, every zone offset of the input
+/-- **round trip**: for every `time_t` t in the years 0000..9999, every zone offset of the input
     and every local zone / `as_gmt` choice of the reader:  GT2time (time2GT (localtime t)) = t. -/
-theorem GT2time_time2GT_partial (t off lo : Int) (g : Bool) (h0 : t0000 ≤ t) (h1 : t < t10000) (hne : t ≠ -1) :
+theorem GT2time_time2GT (t off lo : Int) (g : Bool) (h0 : t0000 ≤ t) (h1 : t < t10000) :
     ∃ txt, time2GT (localtime t off) true = some txt ∧
       GT2time lo txt g = .ok t 0 0 (if g then gmtime t else localtime t lo) := by
   obtain ⟨Y, M, D, h, m, s, hv, he, ht⟩ := time2GT_canonical t off h0 h1
   refine ⟨_, ht, ?_⟩
-  have := GT2time_canonical_partial lo g Y M D h m s hv (by rw [he]; exact hne)
+  have := GT2time_canonical lo g Y M D h m s hv
   rw [he] at this; exact this
 
-/-- F60: the instant -1 (1969-12-31T23:59:59Z) is a valid `time_t`, `asn_time2GT` prints it, and
-    `asn_GT2time` answers -1/EINVAL for that text. -/
-theorem GT2time_minus_one_cex (off lo : Int) (g : Bool) :
-    ∃ txt, time2GT (localtime (-1) off) true = some txt ∧ GT2time lo txt g = .einval := by
-  obtain ⟨Y, M, D, h, m, s, hv, he, ht⟩ := time2GT_canonical (-1) off (by decide) (by decide)
-  refine ⟨_, ht, ?_⟩
-  unfold GT2time
-  rw [GT2timeFrac_canon lo g Y M D h m s hv, if_pos he]
+/-- F60 witness, repaired: the instant -1 (1969-12-31T23:59:59Z) is a valid `time_t`; `asn_GT2time`
+    converts what `asn_time2GT` prints for it back to -1, and the text "19691231235959Z" of the former
+    witness is read as -1 (formerly: -1/EINVAL). -/
+theorem GT2time_minus_one_witness (off lo : Int) (g : Bool) :
+    (∃ txt, time2GT (localtime (-1) off) true = some txt ∧
+      GT2time lo txt g = .ok (-1) 0 0 (if g then gmtime (-1) else localtime (-1) lo)) ∧
+    gtCanon 1969 12 31 23 59 59 =
+      [0x31, 0x39, 0x36, 0x39, 0x31, 0x32, 0x33, 0x31, 0x32, 0x33, 0x35, 0x39, 0x35, 0x39, 0x5a] ∧
+    GT2time lo (gtCanon 1969 12 31 23 59 59) g = .ok (-1) 0 0 (if g then gmtime (-1) else localtime (-1) lo) := by
+  have he : epochSeconds 1969 12 31 23 59 59 = -1 := by
+    have hd : dayNumber 1969 12 31 = 719527 := by
+      simp only [dayNumber]; rw [← eraForm_eq_spec]; decide
+    simp only [epochSeconds, hd]; decide
+  have hc := GT2time_canonical lo g 1969 12 31 23 59 59 (by decide)
+  rw [he] at hc
+  exact ⟨GT2time_time2GT (-1) off lo g (by decide) (by decide), by decide, hc⟩
 
 /-! ### fractions: the "Deal with fractions" block of asn_time2GT_frac -/
 
@@ -333,13 +417,12 @@ theorem time2GTfrac_canonical (t off : Int) (n d : Nat) (h0 : t0000 ≤ t) (h1 :
 /-! ### asn_GT2time_frac reads the fraction back -/
 
 /-- **asn_GT2time_frac on "YYYYMMDDHHMMSS.f…fZ"** (valid date-time, at most nine fraction digits): the instant
-    the text denotes, `*frac_value` = the decimal value of the digits, `*frac_digits` = their number; the instant
-    -1 is reported as an error (finding F60). -/
+    the text denotes, `*frac_value` = the decimal value of the digits, `*frac_digits` = their number (the instant -1 is no
+    exception: F60 repaired). -/
 theorem GT2timeFrac_canon_frac (lo : Int) (g : Bool) (Y M D h m s : Nat) (hv : ValidDateTime Y M D h m s)
     (ds : List Nat) (hds : ∀ c ∈ ds, 48 ≤ c ∧ c ≤ 57) (hlen : ds.length ≤ 9) (hne : ds ≠ []) :
     GT2timeFrac lo (gtDigits14 Y M D h m s ++ 0x2e :: ds ++ [0x5a]) g =
-      if epochSeconds Y M D h m s = -1 then .einval
-      else .ok (epochSeconds Y M D h m s) (digitsVal ds : Nat) ds.length
+      .ok (epochSeconds Y M D h m s) (digitsVal ds : Nat) ds.length
         (if g then gmtime (epochSeconds Y M D h m s) else localtime (epochSeconds Y M D h m s) lo) :=
   have _ := hne
   Asn1c.Proofs.Time.GT2timeFrac_canon_frac lo g Y M D h m s hv ds hds hlen
@@ -351,15 +434,15 @@ theorem fracCanon_denotes (n d : Nat) (hn0 : 0 < n) (hn : n < 10 ^ d) :
       digitsVal ds * 10 ^ (d - ds.length) = n :=
   Asn1c.Proofs.Time.fracCanon_denotes n d hn0 hn
 
-/-- **fraction round trip**: for t in the years 0000..9999 other than -1 (F60), every zone offset, and a fraction
+/-- **fraction round trip**: for t in the years 0000..9999, every zone offset, and a fraction
     n/10^d (d ≤ 9, 0 < n < 10^d): `asn_GT2time_frac` applied to the forced-GMT text of `asn_time2GT_frac`
     returns t and a fraction fv/10^fd equal to n/10^d (1 ≤ fd ≤ d: trailing zeros are gone). -/
-theorem GT2timeFrac_time2GTfrac_partial (t off lo : Int) (g : Bool) (n d : Nat) (h0 : t0000 ≤ t) (h1 : t < t10000)
-    (hne : t ≠ -1) (hd9 : d ≤ 9) (hn0 : 0 < n) (hn : n < 10 ^ d) :
+theorem GT2timeFrac_time2GTfrac (t off lo : Int) (g : Bool) (n d : Nat) (h0 : t0000 ≤ t) (h1 : t < t10000)
+    (hd9 : d ≤ 9) (hn0 : 0 < n) (hn : n < 10 ^ d) :
     ∃ (txt : Bytes) (fv fd : Nat), time2GTfrac (localtime t off) n d true = some txt ∧
       GT2timeFrac lo txt g = .ok t fv fd (if g then gmtime t else localtime t lo) ∧
       1 ≤ fd ∧ fd ≤ d ∧ fv * 10 ^ (d - fd) = n :=
-  Asn1c.Proofs.Time.GT2timeFrac_time2GTfrac_partial t off lo g n d h0 h1 hne hd9 hn0 hn
+  Asn1c.Proofs.Time.GT2timeFrac_time2GTfrac t off lo g n d h0 h1 hd9 hn0 hn
 
 /-- Observations on foreign input (closed instances; none contradicts C17, which is about the helpers' own
     output): `asn_GT2time` (a) ignores anything after 'Z' ("19700101000000Zjunk" = 0), (b) does not range-check
@@ -387,8 +470,8 @@ theorem UT2time_window (lo : Int) (g : Bool) (Y M D h m s : Nat) :
     UT2time lo (utCanon Y M D h m s) g = GT2time lo (gtCanon (utWindow Y) M D h m s) g :=
   UT2time_canon lo g Y M D h m s
 
-/-- **UTCTime round trip inside the window**: for every t in [1960-01-01, 2060-01-01) other than -1 -/
-theorem UT2time_time2UT_partial (t off lo : Int) (g : Bool) (h0 : t1960 ≤ t) (h1 : t < t2060) (hne : t ≠ -1) :
+/-- **UTCTime round trip inside the window**: for every t in [1960-01-01, 2060-01-01), -1 included -/
+theorem UT2time_time2UT (t off lo : Int) (g : Bool) (h0 : t1960 ≤ t) (h1 : t < t2060) :
     ∃ txt, time2UT (localtime t off) true = some txt ∧
       UT2time lo txt g = .ok t 0 0 (if g then gmtime t else localtime t lo) := by
   obtain ⟨Y, M, D, h, m, s, hv, he, ht⟩ := time2UT_canonical t off
@@ -396,7 +479,7 @@ theorem UT2time_time2UT_partial (t off lo : Int) (g : Bool) (h0 : t1960 ≤ t) (
   refine ⟨_, ht, ?_⟩
   obtain ⟨w1, w2⟩ := year_in_window Y M D h m s hv (by rw [he]; exact h0) (by rw [he]; exact h1)
   rw [UT2time_window, utWindow_id Y w1 w2]
-  have := GT2time_canonical_partial lo g Y M D h m s hv (by rw [he]; exact hne)
+  have := GT2time_canonical lo g Y M D h m s hv
   rw [he] at this; exact this
 
 /-- outside the window the century is lost: 1959-12-31T23:59:59Z comes back as 2059-12-31T23:59:59Z -/
@@ -413,14 +496,15 @@ theorem UT2time_outside_window_cex (lo : Int) :
   constructor
   · rw [UT2time_window]
     have hw : utWindow 1959 = 2059 := by decide
-    rw [hw, GT2time_canonical_partial lo true 2059 12 31 23 59 59 (by decide) (by rw [e1]; decide)]
+    rw [hw, GT2time_canonical lo true 2059 12 31 23 59 59 (by decide)]
     rfl
   · rw [e1, e2]; decide
 
 /-! ### non-vacuity of the hypotheses used above -/
 
 example : ValidDateTime 2024 2 29 23 59 59 := by decide
-example : t0000 ≤ (1709251199 : Int) ∧ (1709251199 : Int) < t10000 ∧ (1709251199 : Int) ≠ -1 := by decide
+example : t0000 ≤ (1709251199 : Int) ∧ (1709251199 : Int) < t10000 := by decide
+example : t0000 ≤ (-1 : Int) ∧ (-1 : Int) < t10000 ∧ t1960 ≤ (-1 : Int) ∧ (-1 : Int) < t2060 := by decide
 example : t1960 ≤ (0 : Int) ∧ (0 : Int) < t2060 := by decide
 example : (1 : Nat) ≤ 3 ∧ 3 ≤ 9 ∧ 0 < 250 ∧ 250 < 10 ^ 3 := by decide
 
